@@ -2,6 +2,12 @@
 
 package nsqd
 
+import (
+	"strconv"
+	"strings"
+	"sync"
+)
+
 // verif-only exports used by the external model-based checking harness.
 
 // VerifGUIDFactory wraps the unexported id generator.
@@ -37,4 +43,85 @@ func (v *VerifGUIDFactory) NewGUID() (int64, error) {
 // VerifTopicGUID exposes the id generator of a live topic.
 func VerifTopicGUID(t *Topic) *VerifGUIDFactory {
 	return &VerifGUIDFactory{f: t.idFactory}
+}
+
+// ---- argument helpers for the hooks -------------------------------------
+
+var (
+	verifNameMu  sync.Mutex
+	verifChanIDs = map[*Channel]string{}
+	verifTopIDs  = map[*Topic]string{}
+	verifGen     int
+)
+
+// vc names a channel instance: "topic/channel#n" (n distinguishes re-creations of the same name)
+func vc(c *Channel) string {
+	if c == nil {
+		return ""
+	}
+	verifNameMu.Lock()
+	defer verifNameMu.Unlock()
+	s, ok := verifChanIDs[c]
+	if !ok {
+		verifGen++
+		s = c.topicName + "/" + c.name + "#" + strconv.Itoa(verifGen)
+		verifChanIDs[c] = s
+	}
+	return s
+}
+
+// vt names a topic instance: "topic#n"
+func vt(t *Topic) string {
+	if t == nil {
+		return ""
+	}
+	verifNameMu.Lock()
+	defer verifNameMu.Unlock()
+	s, ok := verifTopIDs[t]
+	if !ok {
+		verifGen++
+		s = t.name + "#" + strconv.Itoa(verifGen)
+		verifTopIDs[t] = s
+	}
+	return s
+}
+
+func vcs(cs []*Channel) []string {
+	r := make([]string, 0, len(cs))
+	for _, c := range cs {
+		r = append(r, vc(c))
+	}
+	return r
+}
+
+func vid(id MessageID) string { return string(id[:]) }
+
+// verr returns the protocol error code (first word) of err, "" for nil
+func verr(err error) string {
+	if err == nil {
+		return ""
+	}
+	s := err.Error()
+	if i := strings.IndexByte(s, ' '); i > 0 {
+		return s[:i]
+	}
+	return s
+}
+
+func vparam(p [][]byte, i int) string {
+	if i >= len(p) {
+		return ""
+	}
+	if len(p[i]) > 64 {
+		return string(p[i][:64])
+	}
+	return string(p[i])
+}
+
+func vids(ms []*Message) []string {
+	r := make([]string, 0, len(ms))
+	for _, m := range ms {
+		r = append(r, vid(m.ID))
+	}
+	return r
 }
